@@ -7,5 +7,6 @@ var bubbleAssume = []string{
 }
 
 var registry = map[string]checkSpec{
+	"C01": {Rule: "case = (set of <=k configuration deviations with distinct dimensions, delivery fault mask with <=d faults); all sets and masks are enumerated; non-trivial = both endpoints reported a successful handshake, so the agreement oracle (version, suite, exporter x3 labels x2 lengths, CIDs, ALPN, SRTP+MKI, peer chains, key log, data both ways) was evaluated", Assume: bubbleAssume, QuickDL: 600, ThoroDL: 3000},
 	"C02": {Rule: "case = (handshake variant, fault mask); all masks with <=k faults over the first N datagrams per direction are enumerated; non-trivial = every fault of the mask actually fired on an emitted datagram (distinct masks that fire are distinct executions)", Assume: bubbleAssume, QuickDL: 240, ThoroDL: 3000},
 }
